@@ -128,6 +128,8 @@ func runC11(p *Program, r *Report) {
 	checkDelData(p, r, a)
 	r.Rule("R11h", "FULL-HASH-KEYS: the verifier-state update never identifies a node by a truncated hash (two added leaves, or a leaf and a root, with a common 12-byte prefix would collapse into one entry of the update data)")
 	checkFullHashKeys(p, r, "R11h", "(*Stump).Update", []string{"(*Stump).Update"})
+	r.Rule("R11i", "LEAF-COUNT-MONOTONE: under Stump.Update every store into the leaf count is an increment of its own value (PrevNumLeaves and the reported positions are those of the forest with every leaf ever added)")
+	checkLeafCountMonotone(p, r, "R11i", []string{"(*Stump).Update"})
 	r.Rule("R11f", "SUCCESS-RETURNS-DATA: every success return of the verifier-state update hands out the UpdateData whose fields were all stored")
 	checkSuccessReturnsData(p, r, "R11f")
 }
@@ -541,6 +543,10 @@ func runC07(p *Program, r *Report) {
 	if g := add.call.Common().StaticCallee(); g != nil {
 		checkNoArithmeticPositions(p, r, "R07d", g)
 	}
+	r.Rule("R07g", "DISCARDED-ERRORS-EXCLUDED: in the cached-proof update every discarded error of a position function is excluded by a dominating guard (or reviewed lemma) covering EVERY failing return of the callee - a failing call hands back position 0, with which the held leaf would silently be paired")
+	scope := p.StaticReach(upd)
+	scope[upd] = true
+	runDiscardGuardIn(p, r, resolveVerifyAnchors(p), "R07g", scope, "the cached-proof update", 1)
 }
 
 // checkFullHashKeys: no call reachable from the entries returns a truncated
